@@ -61,19 +61,31 @@ func main() {
 			usage()
 		}
 		os.Exit(one(os.Args[2], os.Args[3]))
-	case "racepass":
-		// verif racepass <reps>: C19 part 2, meant for the -race flavour of this binary.
-		reps := 20
-		if len(os.Args) > 2 {
-			reps, _ = strconv.Atoi(os.Args[2])
+	case "racepair":
+		// verif racepair <i> <j> <reps>: C19 part 2, one operation pair, for the -race flavour.
+		if len(os.Args) < 5 {
+			usage()
 		}
-		pairs, runs, mismatch := checks.RacePass(reps)
-		fmt.Printf("racepass: %d operation pairs, %d free-running runs\n", pairs, runs)
+		a, _ := strconv.Atoi(os.Args[2])
+		b, _ := strconv.Atoi(os.Args[3])
+		reps, _ := strconv.Atoi(os.Args[4])
+		runs, mismatch := checks.RacePair(a, b, reps)
 		if mismatch != "" {
-			fmt.Println("racepass: RESULT MISMATCH:", mismatch)
+			fmt.Println("racepair: RESULT MISMATCH:", mismatch)
 			os.Exit(1)
 		}
-		fmt.Println("racepass: no race report, all results equal the sequential ones")
+		fmt.Printf("racepair %d %d: %d free-running runs, no race report, all results equal the sequential ones\n", a, b, runs)
+	case "racecorpus":
+		g := 8
+		if len(os.Args) > 2 {
+			g, _ = strconv.Atoi(os.Args[2])
+		}
+		docs, mismatch := checks.RaceCorpus(g)
+		if mismatch != "" {
+			fmt.Println("racecorpus: RESULT MISMATCH:", mismatch)
+			os.Exit(1)
+		}
+		fmt.Printf("racecorpus: %d spec examples on %d goroutines, then every tree rendered/formatted/walked concurrently: no race report, all results equal the sequential ones\n", docs, g)
 	case "selftest":
 		os.Exit(selftest(""))
 	case "list":
